@@ -591,6 +591,8 @@ class Sym:
 
     # ------------------------------------------------------------------ expressions
     def _binop(self, op, a, b):
+        if op == "+" and a[0] == "const" and b[0] == "const" and type(a[1]) is type(b[1]) and isinstance(a[1], (str, bytes)):
+            return ("const", a[1] + b[1])          # two literal pieces of one text
         if op == "+" and a[0] in ("list", "comp") and b[0] in ("list", "comp"):
             la = a[1] if a[0] == "list" else (("splice", a),)
             lb = b[1] if b[0] == "list" else (("splice", b),)
